@@ -189,7 +189,7 @@ class Contract(Contract_):
                  raises=(), modifies=(), loops=None, inline=False,
                  result=None, canaries=None, options=None, joinlists=(),
                  ghost_pre=None, ghost_post=None, spec_module=None,
-                 setup=None, name=None, body=None, cls=None):
+                 setup=None, name=None, body=None, cls=None, cm=None):
         self.target = target
         self.qualname = qualname_of(target) if not isinstance(target, str) else target
         self.short = name or self.qualname.split(":")[1]
@@ -208,6 +208,7 @@ class Contract(Contract_):
         self.ghost_post = ghost_post
         self.setup = setup
         self.cls = cls
+        self.cm = cm
         mod = spec_module
         if mod is None:
             frm = inspect.stack()[1]
@@ -290,6 +291,8 @@ class Contract(Contract_):
         for j in self.joinlists:
             env.vars["__joinlist__" + j] = True
         frame = Frame(func, env)
+        if self.cm is not None:
+            return self.run_cm(ex, func, frame, inputs, old)
         ex.frames.append(frame)
         outcome, value = "return", None
         try:
@@ -345,6 +348,70 @@ class Contract(Contract_):
                 for k, e in r.ensures.items():
                     ex.check(f"{self.short}.raises[{r.exc.__name__}].ensures[{k}]",
                              self.eval_clause(ex, e, post), e)
+        return outcome
+
+    def run_cm(self, ex, func, frame, inputs, old):
+        """a generator based context manager (@contextmanager /
+        @asynccontextmanager): the body is split at its single `yield`.
+        self.cm = dict(enter={clauses}, between=ghost code run while the
+        manager is open (interference), exit={clauses}, exit_modes=(...))"""
+        import asyncio
+        cm = self.cm
+        gen = ex._gen_body(func, frame)
+        post = Env()
+        post.vars.update(inputs.vars)
+        post.vars["old"] = old
+        try:
+            yielded = next(gen)
+        except StopIteration:
+            raise OutOfReach("context manager did not yield")
+        except PyRaise as p:
+            value = p.exc
+            ex.outcome = ("raise", value)
+            matched = next((r for r in self.raises
+                            if issubclass(value.cls, r.exc)), None)
+            if matched is None:
+                ex.check(f"{self.short}.enter.raises.unexpected[{value.cls.__name__}]",
+                         False, f"exception {value.cls.__name__} at enter")
+            else:
+                post.vars["exc"] = value
+                for k, e in matched.ensures.items():
+                    ex.check(f"{self.short}.enter.raises[{matched.exc.__name__}].ensures[{k}]",
+                             self.eval_clause(ex, e, post), e)
+            return "raise"
+        post.vars["result"] = yielded
+        for k, e in cm.get("enter", {}).items():
+            ex.check(f"{self.short}.enter.ensures[{k}]",
+                     self.eval_clause(ex, e, post), e)
+        for k, e in self.canaries.items():
+            ex.check(f"{self.short}.CANARY[{k}]", self.eval_clause(ex, e, post), e)
+        if cm.get("between"):
+            self.exec_ghost(ex, cm["between"], post)
+        mid = Obj(object, {k: snapshot(v) for k, v in inputs.vars.items()}, "mid")
+        post.vars["mid"] = mid
+        modes = cm.get("exit_modes", ("normal", "exception"))
+        mode = modes[ex.choose(len(modes), "how the with-block is left")]
+        ex.notes.append(f"with-block left by: {mode}")
+        outcome = "return"
+        try:
+            if mode == "normal":
+                next(gen)
+            else:
+                cls = asyncio.CancelledError if mode == "cancelled" else RuntimeError
+                gen.throw(PyRaise(ex.make_exc(cls)))
+            raise OutOfReach("context manager yielded twice")
+        except StopIteration:
+            if mode != "normal":
+                ex.check(f"{self.short}.exit.swallows_exception", False,
+                         "the exception thrown into the with-block is swallowed")
+        except PyRaise as p:
+            outcome = "raise"
+            post.vars["exc"] = p.exc
+        ex.outcome = (outcome, None)
+        ex.normal_paths = 1
+        for k, e in cm.get("exit", {}).items():
+            ex.check(f"{self.short}.exit.ensures[{k}]",
+                     self.eval_clause(ex, e, post), e)
         return outcome
 
     def check_frame(self, ex, inputs, old, tag):
@@ -597,8 +664,9 @@ def verify(contract, report, max_paths=5000, options=None, replay=None,
             if key in keys:
                 continue
             keys.add(key)
-            jobs.append((name, pc, goal, text, notes,
-                         dict(getattr(ex, "inputs", {})),
+            entry = ex.old.fields if hasattr(ex, "old") else \
+                getattr(ex, "inputs", {})     # the entry state, not the final one
+            jobs.append((name, pc, goal, text, notes, dict(entry),
                          getattr(ex, "replay_extra", None), timeout_ms))
     t_explore = time.time() - t0
     if cover_pc is not None:
